@@ -229,4 +229,25 @@ def WF (σ : Style) (d : Doc) : Bool :=
   && eolsOk d.eols
   && linesOk σ d
 
+/-! ## the documented typed readings of a value -/
+
+/-- positional value of a string of ASCII digits -/
+def decimal (ds : Bytes) : Nat := ds.foldl (fun a d => 10 * a + (d.toNat - 48)) 0
+
+def isDigit (b : UInt8) : Bool := 48 ≤ b && b ≤ 57
+
+/-- "Integer values can be written in the usual form": blanks, an optional sign, digits; anything
+after the digits is ignored.  `none` when the number does not fit a C `int`. -/
+def intValue (neg : Bool) (ds : Bytes) : Option Int :=
+  let v : Int := if neg then -(decimal ds : Int) else (decimal ds : Int)
+  if -2147483648 ≤ v ∧ v ≤ 2147483647 then some v else none
+
+/-- `{item item …}`: the text of a list value; separators are non-empty runs of white space, the
+last item may touch the closing brace -/
+def listText (lead : Bytes) (items : List (Bytes × Bytes)) (last : Option Bytes) : Bytes :=
+  [123] ++ lead ++ (items.flatMap fun p => p.1 ++ p.2) ++ (last.getD []) ++ [125]
+
+/-- an item: non-empty, no white space, no NUL, no closing brace -/
+def isItem (it : Bytes) : Bool := !it.isEmpty && it.all fun b => !isSpace b && b != 0 && b != 125
+
 end PV.IniSpec
